@@ -74,6 +74,9 @@ func (p *Prog) genFunc(fi *FuncInfo) (g *FuncGen) {
 			}
 		}
 	}
+	if fi.Writes["$iofail"] {
+		g.ghostGet(st, "$iofail")
+	}
 	g.entry = st.clone()
 	// requires
 	if fi.Spec != nil {
@@ -103,6 +106,13 @@ func (p *Prog) genFunc(fi *FuncInfo) (g *FuncGen) {
 	final := g.merge(g.returns)
 	if final == nil {
 		return g
+	}
+	// C16: a function that returns an error reports the failure of any file-system modification made during the call
+	if ioReporting(fi) {
+		cur := g.ghostGet(final, "$iofail")
+		errV := final.vars[g.resVals[len(g.resVals)-1]]
+		g.oblige(final, "iofail", "", nil, fmt.Sprintf("(=> (and %s (not %s)) (not (= %s 0)))", cur, g.entry.heap["$iofail"], errV.T), fi.Body.Rbrace,
+			"a failed file-system modification is reported: the function returns a non-nil error")
 	}
 	// ensures
 	if fi.Spec != nil {
@@ -195,4 +205,13 @@ func countLoops(b *ast.BlockStmt) int {
 		return true
 	})
 	return n
+}
+
+// ioReporting: the function may (transitively) modify the file system and its last result is an error
+func ioReporting(fi *FuncInfo) bool {
+	if fi == nil || fi.Sig == nil || !fi.Writes["$iofail"] {
+		return false
+	}
+	r := fi.Sig.Results()
+	return r.Len() > 0 && isErrorType(r.At(r.Len()-1).Type())
 }
